@@ -53,6 +53,10 @@ var wallPrograms = []string{
 	"(do (future (tick 0)) (spin 0))",
 	"(do (def tf (future (tick 0))) (sleep 100000))",
 	"(try (do (future (tick 0)) (sleep 100000)) (catch e (spin 0)))",
+	// a running future that is cancelled and then dereferenced several times: every deref returns (an outcome or the
+	// caller's timeout), none can park the evaluation beyond its context
+	"(let [f (future (sleep 100000))] (do (future-cancel f) (sleep 3) (try (deref f) (catch e nil)) (try (deref f) (catch e nil)) (try (deref f) (catch e nil)) (spin 0)))",
+	"(do (future-cancel bgspin) (sleep 3) (try (deref bgspin) (catch e nil)) (try (deref bgspin) (catch e nil)) (future-cancel bgf) (sleep 3) (try (deref bgf) (catch e nil)) (try (deref bgf) (catch e nil)) (spin 0))",
 }
 
 const wallDefs = `(do
